@@ -2,8 +2,8 @@ SPECIFICATION Spec
 CONSTANTS
   MaxLen = 4
   Symbols = {1, 3, 4, 5, 9, 10, 11}
-  SegIMs = {-1, 1, 2, 3, 4}
-  TofIMs = {-1, 1, 2, 3}
+  SegIMs = {0, 1, 2, 3, 4}
+  TofIMs = {0, 1, 2, 3}
   FrameIds = {1}
   StoreIds = {1}
   NStores = {0}
